@@ -284,7 +284,7 @@ def make_converter(ty: IntoConverter, handlers: ConverterHandlers = ConverterHan
         if len(args) == 0 and hasattr(base, '_fields') and hasattr(base, '_make'):
             # a named tuple: one slot per field, of the annotated type (if any)
             try:
-                hints = t.get_type_hints(base)
+                hints = t.get_type_hints(base, include_extras=True)
             except Exception:
                 hints = {}
             return TupleConverter(base, tuple(hints.get(f, t.Any) for f in base._fields), handlers=handlers)  # type: ignore
